@@ -192,6 +192,9 @@ def cases(tier):
         for chroms in ("auto+X+Y", "auto+X", "auto", "X+Y-first"):
             for anti in ("none", "present", "empty"):
                 yield {"check": "flat", "naming": naming, "chroms": chroms, "anti": anti}
+    for k in (2, 3) + ((4,) if t else ()):
+        for block in ("target", "antitarget"):
+            yield {"check": "reject", "k": k, "block": block}
     # pooled, exact oracle
     kmax, dev = (5, 2) if t else (4, 1)
     for k in range(1, kmax + 1):
@@ -206,9 +209,6 @@ def cases(tier):
                 c = pooled_case(k, sexes, {"dn": (clean, (0,) * k), "naming": naming, "anti": anti, "order": order})
                 if emit(c):
                     yield c
-    for k in (2, 3) + ((4,) if t else ()):
-        for block in ("target", "antitarget"):
-            yield {"check": "reject", "k": k, "block": block}
     # corrections on, semantic clauses
     for cohort in COHORTS_B:
         if cohort == "MFM" and not t:
